@@ -169,6 +169,41 @@ func checkC03Schema(prog *Program, o *CheckOpts) []ExtraResult {
 			}
 		}
 	}
+	// a case label of a switch over strings.ToLower(..) that is not lower case can never match:
+	// the element it names would silently take the default branch
+	for _, pk := range []*packages.Package{scan, root} {
+		for _, f := range pk.Syntax {
+			ast.Inspect(f, func(n ast.Node) bool {
+				sw, ok := n.(*ast.SwitchStmt)
+				if !ok || sw.Tag == nil {
+					return true
+				}
+				call, ok := sw.Tag.(*ast.CallExpr)
+				if !ok {
+					return true
+				}
+				sel, ok := call.Fun.(*ast.SelectorExpr)
+				if !ok || sel.Sel.Name != "ToLower" {
+					return true
+				}
+				for _, st := range sw.Body.List {
+					cc, ok := st.(*ast.CaseClause)
+					if !ok {
+						continue
+					}
+					for _, e := range cc.List {
+						bl, ok := e.(*ast.BasicLit)
+						if !ok || bl.Kind != token.STRING {
+							continue
+						}
+						v, _ := strconv.Unquote(bl.Value)
+						add("lowercase-label."+v, fmt.Sprintf("case %q of a switch over strings.ToLower(...) is lower case (otherwise it is unreachable)", v), v == strings.ToLower(v), "label "+v, posStr(pk.Fset, bl.Pos()))
+					}
+				}
+				return true
+			})
+		}
+	}
 	checkSwitch(scan, "Scan", "Scanner", nil)
 	add("scan.cases", "the scanner handles the seven OSM XML elements", cases == 7, fmt.Sprintf("%d decoding cases", cases), "")
 	before := cases
